@@ -275,16 +275,39 @@ theorem sdes_rustrtc_pair (ka kb : List UInt8) (ha : ka.length = sdesGeneratedLe
 
 /-! ### transport plan of the direct modes -/
 
-/-- **mux_agreed**: two ends with the same rtcp-mux policy and compatibility mode agree on multiplexing
-(the answer carries `a=rtcp-mux` iff the offer does), and each end binds an RTCP socket exactly when
-RTCP is not multiplexed. -/
-theorem mux_agreed (muxRequire legacySip : Bool) :
+/-- **mux_agreed**, for independent policies and compatibility modes of the two ends
+(`(muxO, legacyO)` offerer, `(muxA, legacyA)` answerer): the answer carries `a=rtcp-mux` only if the offer
+does (the `retain`), it does iff additionally the answerer's own policy puts it there, the offerer binds an
+RTCP socket exactly when it does not offer mux, and the answerer binds one exactly when the *offer* had no
+mux (`needs_rtcp`). -/
+theorem mux_agreed (muxO legacyO muxA legacyA : Bool) :
+    let offerMux := sectionHasMux muxO legacyO .offer false
+    let answerMux := sectionHasMux muxA legacyA .answer offerMux
+    (answerMux = true → offerMux = true) ∧
+    (answerMux = (localOffersMux muxA legacyA && offerMux)) ∧
+    needsRtcpSocket muxO legacyO .offer false = !offerMux ∧
+    needsRtcpSocket muxA legacyA .answer offerMux = !offerMux := by
+  cases muxO <;> cases legacyO <;> cases muxA <;> cases legacyA <;> decide
+
+/-- same policy and compatibility mode on both ends (the lattice's points): both agree on multiplexing and
+each end has an RTCP socket exactly when RTCP is not multiplexed -/
+theorem mux_agreed_same_policy (muxRequire legacySip : Bool) :
     let offerMux := sectionHasMux muxRequire legacySip .offer false
     let answerMux := sectionHasMux muxRequire legacySip .answer offerMux
     answerMux = offerMux ∧
     needsRtcpSocket muxRequire legacySip .offer false = !offerMux ∧
     needsRtcpSocket muxRequire legacySip .answer offerMux = !answerMux := by
   cases muxRequire <;> cases legacySip <;> decide
+
+/-- **Witness (known finding `mux:rtp-mixed-policy:…`)**: "each end has an RTCP socket exactly when RTCP is
+not multiplexed" is false for mixed policies: a `Require` offerer facing a `Negotiate` (or LegacySip)
+answerer offers mux, the answer drops it, and *neither* end has bound an RTCP socket — the answerer because
+the offer had mux, the offerer because it offered mux: RTCP has no port to go to. -/
+theorem mux_mixed_policy_no_rtcp_socket_witness :
+    let offerMux := sectionHasMux true false .offer false
+    let answerMux := sectionHasMux false false .answer offerMux
+    answerMux = false ∧ needsRtcpSocket true false .offer false = false ∧
+    needsRtcpSocket false false .answer offerMux = false := by decide
 
 /-- **plan_rtp_delivers**: in Rtp mode, bundled or not, every media section's packets are sent to a
 remote socket that has a receiver, and it is the socket that section's receiver listens on. Any number of
